@@ -13,7 +13,7 @@
 //!            (b) the calendar against an independent days-from-civil function (the inverse
 //!            direction, written from the "days before year y" formula and a month table), an
 //!            incrementing y/m/d counter for the whole-day sweep, and chrono's documented span.
-use calamine::{CellErrorType, Data, DataRef, DataType, ExcelDateTime, ExcelDateTimeType};
+use calamine::{Cell, CellErrorType, Data, DataRef, DataType, ExcelDateTime, ExcelDateTimeType, Range, RangeDeserializerBuilder};
 use chrono::{Datelike, NaiveDate, NaiveDateTime, NaiveTime, Timelike};
 use std::collections::BTreeMap;
 use std::fmt::Write as _;
@@ -995,6 +995,124 @@ fn gen_cell(rng: &mut Rng) -> String {
     format!("cell {variant} {} {ty} {sys}", bits(v))
 }
 
+
+// ---------------------------------------------------------------------------------------------
+// the serde helpers deserialize_as_{datetime,date,time,duration}_or_{none,string}
+// ---------------------------------------------------------------------------------------------
+
+#[derive(serde_derive::Deserialize)]
+struct HelperRow {
+    #[serde(deserialize_with = "calamine::deserialize_as_datetime_or_none")]
+    dt: Option<NaiveDateTime>,
+    #[serde(deserialize_with = "calamine::deserialize_as_date_or_none")]
+    date: Option<NaiveDate>,
+    #[serde(deserialize_with = "calamine::deserialize_as_time_or_none")]
+    time: Option<NaiveTime>,
+    #[serde(deserialize_with = "calamine::deserialize_as_duration_or_none")]
+    dur: Option<chrono::Duration>,
+    #[serde(deserialize_with = "calamine::deserialize_as_datetime_or_string")]
+    dt_s: Result<NaiveDateTime, String>,
+    #[serde(deserialize_with = "calamine::deserialize_as_date_or_string")]
+    date_s: Result<NaiveDate, String>,
+    #[serde(deserialize_with = "calamine::deserialize_as_time_or_string")]
+    time_s: Result<NaiveTime, String>,
+    #[serde(deserialize_with = "calamine::deserialize_as_duration_or_string")]
+    dur_s: Result<chrono::Duration, String>,
+}
+
+/// desc: "helper <variant> <bits> <td|dt> <1900|1904>" (variants as for `cell`, plus `iso`/`isodur`
+/// which carry a fixed ISO string).  Contract (doc comments of the helpers): they apply
+/// `as_datetime` / `as_date` / `as_time` / `as_duration` to the cell value.
+fn check_helper(desc: &str, drv: &mut Driver, loc: &mut Local) {
+    let p: Vec<&str> = desc.split(' ').collect();
+    let variant = p[1];
+    let v = if p.len() > 2 { unbits(p[2]) } else { 0.0 };
+    let ty = if p.len() > 3 && p[3] == "td" { ExcelDateTimeType::TimeDelta } else { ExcelDateTimeType::DateTime };
+    let is_1904 = p.len() > 4 && p[4] == "1904";
+    let as_int = v as i64;
+    let data = match variant {
+        "float" => Data::Float(v),
+        "int" => Data::Int(as_int),
+        "dt" => Data::DateTime(ExcelDateTime::new(v, ty, is_1904)),
+        "string" => Data::String("not a date".into()),
+        "bool" => Data::Bool(true),
+        "empty" => Data::Empty,
+        "iso" => Data::DateTimeIso("2021-10-15T19:00:00".into()),
+        "isodur" => Data::DurationIso("PT10H10M10S".into()),
+        x => panic!("bad helper variant {x}"),
+    };
+    let cells: Vec<Cell<Data>> = (0..8).map(|c| Cell::new((0, c), data.clone())).collect();
+    let range = Range::from_sparse(cells);
+    let r = guarded(|| {
+        let mut it = RangeDeserializerBuilder::new().has_headers(false).from_range::<_, HelperRow>(&range).map_err(|e| format!("{e:?}"))?;
+        match it.next() {
+            Some(Ok(row)) => Ok(row),
+            Some(Err(e)) => Err(format!("{e:?}")),
+            None => Err("no row".to_string()),
+        }
+    });
+    loc.evaluations += 1;
+    loc.count(&format!("helper.{variant}"));
+    let direct = (data.as_datetime(), data.as_date(), data.as_time(), data.as_duration());
+    let fmt4 = |a: &Option<NaiveDateTime>, b: &Option<NaiveDate>, c: &Option<NaiveTime>, d: &Option<chrono::Duration>| {
+        format!("dt={} date={} time={} dur={}", show_dt(a), opt(b, show_date), opt(c, show_time), show_dur(d))
+    };
+    let expect = fmt4(&direct.0, &direct.1, &direct.2, &direct.3);
+    let (kind, serial, sys) = match variant {
+        "float" => ("num", v, false),
+        "int" => ("num", as_int as f64, false),
+        "dt" => ("dt", v, is_1904),
+        _ => ("other", 0.0, false),
+    };
+    let model = drv.ask(&format!("helper {kind} {} {} {}", date_step(serial, sys).wire(), dur_step(serial).wire(), date_step(serial, false).wire()));
+    let (imp_s, verdict): (String, Option<String>) = match &r {
+        Err(pn) => (format!("panic: {pn}"), Some("panic:helper".into())),
+        Ok(Err(e)) => (format!("error: {e}"), Some("helper_error".into())),
+        Ok(Ok(row)) => {
+            let s = fmt4(&row.dt, &row.date, &row.time, &row.dur);
+            let consistent = row.dt == row.dt_s.clone().ok() && row.date == row.date_s.clone().ok() && row.time == row.time_s.clone().ok() && row.dur == row.dur_s.clone().ok();
+            let v = if !consistent {
+                Some("helper_or_string_differs_from_or_none".to_string())
+            } else if s == expect {
+                None
+            } else if (row.dt, row.date, row.time) == (direct.0, direct.1, direct.2) && direct.3.is_some() && row.dur.is_none() {
+                Some("helper_duration_lost".into())
+            } else if variant == "dt" && is_1904 {
+                Some("helper_loses_1904_flag".into())
+            } else if variant == "iso" || variant == "isodur" {
+                Some("helper_iso_string_not_converted".into())
+            } else {
+                Some("helper_differs".into())
+            };
+            (s, v)
+        }
+    };
+    if matches!(&r, Ok(Ok(row)) if row.dt.is_some()) {
+        loc.hashes.push(fnv64(desc.as_bytes()));
+    }
+    if let Some(sig) = &verdict {
+        loc.fail("impl_vs_spec", sig, desc, &imp_s, &model, &expect);
+    }
+    if imp_s != model {
+        let sig = verdict.clone().unwrap_or_else(|| "helper".into());
+        // the model has no ISO strings: they are `other` cells there, which is also what the helpers make of them
+        loc.fail("impl_vs_model", &sig, desc, &imp_s, &model, "");
+    }
+}
+
+fn gen_helper(rng: &mut Rng) -> String {
+    let variant = *rng.pick(&["float", "int", "dt", "dt", "dt", "string", "bool", "empty", "iso", "isodur"]);
+    let (day, k) = gen_base(rng);
+    let v = match rng.below(12) {
+        0 => *rng.pick(&special_values()),
+        1 | 2 => day as f64,
+        _ => day as f64 + k as f64 / 86_400_000.0,
+    };
+    let ty = if rng.chance(1, 2) { "td" } else { "dt" };
+    let sys = if rng.chance(1, 3) { "1904" } else { "1900" };
+    format!("helper {variant} {} {ty} {sys}", bits(v))
+}
+
 // ---------------------------------------------------------------------------------------------
 // replay / corpus
 // ---------------------------------------------------------------------------------------------
@@ -1010,6 +1128,7 @@ fn run_input(inp: &str, drv: &mut Driver, loc: &mut Local) {
         }
         "mono" => check_monotone(&[(unbits(p[2]), p[1] == "1904"), (unbits(p[3]), p[1] == "1904")], loc),
         "cell" => check_cell(inp, drv, loc),
+        "helper" => check_helper(inp, drv, loc),
         "iso" => check_iso(&p[..9].join(" "), loc),
         x => panic!("bad replay input {x}"),
     }
@@ -1032,6 +1151,13 @@ fn corpus() -> Vec<String> {
     // the fictitious 1900-02-29: 59.5 converts to a later instant than 60.0 (known finding)
     c.push(format!("mono 1900 {} {}", bits(59.5), bits(60.0)));
     c.push(format!("mono 1904 {} {}", bits(59.5 - 1462.0), bits(60.0 - 1462.0)));
+    // serde helpers: known findings (1904 flag, durations and ISO strings do not survive Data::deserialize)
+    c.push(format!("helper dt {} dt 1904", bits(0.0)));
+    c.push(format!("helper dt {} td 1900", bits(0.5)));
+    c.push(format!("helper dt {} dt 1900", bits(44484.5)));
+    c.push(format!("helper float {} dt 1900", bits(44484.5)));
+    c.push("helper iso 0000000000000000 dt 1900".into());
+    c.push("helper isodur 0000000000000000 dt 1900".into());
     c.push("iso dtf 2021 10 15 19 0 0 250".into());
     c.push("iso dur 1 1 1 10 10 10 0".into());
     c.push("iso durf 1 1 1 10 10 10 500".into());
@@ -1202,6 +1328,10 @@ fn main() {
                     for _ in 0..n_cells / threads as u64 {
                         let c = gen_cell(&mut rng);
                         check_cell(&c, &mut drv, &mut loc);
+                    }
+                    for _ in 0..n_cells / threads as u64 {
+                        let c = gen_helper(&mut rng);
+                        check_helper(&c, &mut drv, &mut loc);
                     }
                     for _ in 0..n_iso / threads as u64 {
                         let c = gen_iso(&mut rng);
